@@ -48,6 +48,24 @@ def install_recorder(sym):
         return orig(cls, sheet, row_index, column_index, value, *a, **kw)
 
     AbstractODSGenerator._fill_cell = classmethod(_fill)  # pylint: disable=protected-access
+    orig_init = AbstractODSGenerator._initialize_output_file.__func__  # pylint: disable=protected-access
+
+    def _init(cls, *a, **kw):
+        doc = orig_init(cls, *a, **kw)
+        _INSTALLED["doc"] = doc
+        if sym:
+            # the .ods bytes are outside the symbolic claim (cells hold placeholders there): do not zip and write them on
+            # every path; the concrete replay saves the real file
+            doc.save = lambda: None
+        return doc
+
+    AbstractODSGenerator._initialize_output_file = classmethod(_init)  # pylint: disable=protected-access
+
+
+def final_sheets():
+    """sheet names of the document object of the last generate() call, as left at the end of the call"""
+    doc = _INSTALLED.get("doc")
+    return list(doc.sheets.names()) if doc is not None else []
 
 
 class Record:
@@ -74,6 +92,27 @@ class Record:
         return sorted(r for (r, c), v in self.sheets.get(sheet, {}).items() if c == col and type(v) is str and v == text)  # pylint: disable=unidiomatic-typecheck
 
 
+def _rebind_language():
+    """rp2_main sets the language before it imports the report plugins, which bind `_` at import time; a long-lived worker
+    runs jobs in several languages, so the binding of the already imported report modules is refreshed (a fresh process)"""
+    import sys  # pylint: disable=import-outside-toplevel
+
+    from rp2 import localization  # pylint: disable=import-outside-toplevel
+
+    for name, m in list(sys.modules.items()):
+        if name.startswith("rp2.plugin.report") and m is not None and "_" in vars(m):
+            m._ = localization._  # pylint: disable=protected-access
+
+
+def tr(text):
+    from rp2 import localization  # pylint: disable=import-outside-toplevel
+
+    return localization._(text)
+
+
+LANG = {"us": "en", "generic": "en", "es": "es", "ie": "en_IE", "jp": "en"}
+
+
 def outdir():
     d = os.path.abspath("out_%d" % os.getpid())
     os.makedirs(d, exist_ok=True)
@@ -87,7 +126,14 @@ def generate(S, generator, country, cds, method_names, from_date, to_date, lang=
     set_generation_language(lang)
     install_recorder(S.mode == "sym")
     mod = importlib.import_module("rp2.plugin.report." + generator)
+    _rebind_language()
     del REC[:]
+    _INSTALLED.pop("doc", None)
+    # ezodf keeps every wrapped table in a process-wide cache (it is written for one document per process): without this
+    # a worker that generates thousands of reports keeps all of them alive
+    import ezodf.wrapcache  # pylint: disable=import-outside-toplevel
+
+    ezodf.wrapcache.clear()
     d = outdir()
     err = None
     try:
@@ -156,7 +202,7 @@ def inner_value(S, inner):
                 from decimal import Decimal  # pylint: disable=import-outside-toplevel
                 from fractions import Fraction  # pylint: disable=import-outside-toplevel
 
-                return ("num", Fraction(Decimal(x)))
+                return ("num", S.ex(Decimal(x)))
             except Exception:  # pylint: disable=broad-except
                 return ("str", x)
         return part_value(S, x)[:2]
@@ -177,7 +223,7 @@ def parse_note(S, inner):
         m = _NOTE.match(inner[0])
         if not m:
             raise ValueError("unparsable note %r" % (inner,))
-        return int(m.group(1)), int(m.group(2)), Fraction(Decimal(m.group(3))), Fraction(Decimal(m.group(4))), m.group(5), True
+        return int(m.group(1)), int(m.group(2)), S.ex(Decimal(m.group(3))), S.ex(Decimal(m.group(4))), m.group(5), True
     if len(inner) == 5 and type(inner[0]) is str and type(inner[2]) is str and type(inner[4]) is str:  # pylint: disable=unidiomatic-typecheck
         m = re.match(r"^(\d+)/(\d+): $", inner[0])
         if not m or inner[2] != " of ":
